@@ -46,6 +46,7 @@ type Prog struct {
 	ModPath string
 	Funcs   []*ssa.Function // every function with a body in module packages (methods, closures)
 	NFiles  int
+	Inlined int // call sites replaced by the callee's body (ssainline.go)
 	encl    map[*ssa.Function]*ssa.Function
 }
 
@@ -56,6 +57,13 @@ func (e checkerError) Error() string { return e.msg }
 func cerrf(format string, a ...any) error { return checkerError{fmt.Sprintf(format, a...)} }
 
 func loadProg(root string, bc BuildConfig) (*Prog, error) {
+	return loadProgView(root, bc, true)
+}
+
+// loadProgView: with inline set, functions the reference tree does not have are
+// analysed as part of their callers (ssainline.go); without, the program is
+// analysed as it is written.
+func loadProgView(root string, bc BuildConfig, inline bool) (*Prog, error) {
 	env := []string{}
 	for _, e := range os.Environ() {
 		if strings.HasPrefix(e, "GOWORK=") || strings.HasPrefix(e, "GOFLAGS=") || strings.HasPrefix(e, "GOOS=") ||
@@ -153,8 +161,10 @@ func loadProg(root string, bc BuildConfig) (*Prog, error) {
 		}
 		return a.String() < b.String()
 	})
-	if err := P.inlineUnknownHelpers(); err != nil {
-		return nil, err
+	if inline {
+		if err := P.inlineUnknownHelpers(); err != nil {
+			return nil, err
+		}
 	}
 	if want := os.Getenv("SLUGCHECK_DUMPFN"); want != "" {
 		for _, l := range inlineLog {
